@@ -108,6 +108,20 @@ pub fn large_cfgs() -> Vec<Cfg> {
     v
 }
 
+/// One configuration just beyond the 65 536-word limit (262 148 bytes) for every builder kind that can get there.
+pub fn oversize_cfgs() -> Vec<Cfg> {
+    let total = 262_148usize;
+    // 1020 maximal items: 4 (header) + 4 (ssrc) + 1020 * 257 + 1 (terminator) = 262 149 -> 262 152 bytes
+    let items: Vec<Item> = (0..1020).map(|_| Item { type_: 1, prefix: vec![], value: "v".repeat(255) }).collect();
+    vec![
+        Cfg::App { ssrc: 1, subtype: 0, name: "big!".into(), data: vec![0x5a; total - 12], padding: 0 },
+        Cfg::Unknown { pt: 199, count: 0, data: vec![0x5a; total - 4], padding: 0 },
+        Cfg::Fb { kind: FbKind::Payload, sender: 1, media: 2, fci: Fci::Rpsi { pt: 1, bits: vec![0xff; total - 14], overrun: 0 }, padding: 0 },
+        Cfg::Fb { kind: FbKind::Payload, sender: 1, media: 2, fci: Fci::Sli((0..(total - 12) / 4).map(|i| ((i & 0x1fff) as u16, 1, 0)).collect()), padding: 0 },
+        Cfg::Sdes { chunks: vec![Chunk { ssrc: 9, items }], padding: 0 },
+    ]
+}
+
 /// Deterministic sweeps + seeded random configurations.
 /// `all_paddings`: sweep every u8 padding (C16) rather than only the legal ones.
 pub fn workload(
